@@ -357,7 +357,7 @@ func TestC12Iso(t *testing.T) {
 // ---------------------------------------------------------------------------------
 // C16 — the read API serves exactly the stored state
 
-const ruleC16 = "generated histories over 2-4 logs, both storages; after every request: GET of every known ID, unknown hex IDs and odd IDs through the registered mux handlers and through the bundled client over an in-memory transport, and the log list; at the end 8 readers issue 320 GETs for different IDs concurrently; non-trivial = a GET issued after >=1 growth on that log or after a refused first submission; distinct by case hash"
+const ruleC16 = "generated histories over 2-4 logs, both storages; after every request: GET of every known ID, unknown hex IDs and odd IDs through the registered mux handlers and through the bundled client over an in-memory transport, and the log list; on the SQL store the log list and one held checkpoint are read once more per step with a driver-level storage error under the read (prepare / query / first or second row fetch): a 200 must still be the truth and a held log is never reported as not found; at the end 8 readers issue 320 GETs for different IDs concurrently; non-trivial = a GET issued after >=1 growth on that log or after a refused first submission; distinct by case hash"
 
 var profC16 = vlib.Profile{
 	Prop: "C16", MinLogs: 2, MaxLogs: 4, MinOps: 3, MaxOps: 20,
@@ -391,7 +391,13 @@ var pathIDs = []string{"..", "a/b", "../logs", "a/../b", "//", "a//b", "./x"}
 
 func runC16(c *vlib.HistCase) (bool, []string, error) {
 	e := vlib.NewEnv(c)
-	t, closer, err := e.NewPlainTarget()
+	newTarget := e.NewPlainTarget
+	if c.Storage == "sql" {
+		// through the wrapped driver (no fault armed while the history runs), so that the
+		// reads can be repeated with a storage error injected under them
+		newTarget = e.NewFaultTarget
+	}
+	t, closer, err := newTarget()
 	if err != nil {
 		return false, nil, fmt.Errorf("harness: %v", err)
 	}
@@ -430,6 +436,7 @@ func runC16(c *vlib.HistCase) (bool, []string, error) {
 		id        string
 	}
 	var retained []kept
+	faultRound := 0
 
 	check := func(st *vlib.Step) error {
 		if st != nil {
@@ -506,6 +513,67 @@ func runC16(c *vlib.HistCase) (bool, []string, error) {
 		sort.Strings(want)
 		if strings.Join(list, ",") != strings.Join(want, ",") {
 			return fmt.Errorf("log list is %v, want exactly the logs with an accepted update %v", list, want)
+		}
+		if t.DB == nil {
+			return nil
+		}
+		// The same reads with a storage error under them (SQL store, driver level: the
+		// statement cannot be prepared, the query fails, fetching a row fails). Whatever is
+		// answered with 200 is still the truth - a list that is exactly the accepted logs,
+		// the exact stored bytes - and a log that has a checkpoint is never reported as
+		// having none (404 / os.ErrNotExist is what makes a feeder start from size 0); an
+		// error status is fine. Afterwards the store answers again (the reads above run
+		// once more on the next step).
+		faultRound++
+		points := []string{vlib.DPrepare, vlib.DQuery, vlib.DRowsNext, vlib.DRowsNext}
+		pt := points[faultRound%len(points)]
+		nth := 0
+		if faultRound%len(points) == 3 {
+			nth = 1 // the second row of the list
+		}
+		armed := func(f func()) bool {
+			vlib.Drv.Arm([]vlib.FaultSpec{{Point: pt, Nth: nth}})
+			f()
+			fired, _ := vlib.Drv.Disarm()
+			return len(fired) > 0
+		}
+		var fcode int
+		var fbody []byte
+		if armed(func() { fcode, fbody, _ = serve("GET", api.HTTPGetLogs) }) {
+			classes = append(classes, "faulty-read:logs:"+pt)
+			if fcode == 200 {
+				var flist []string
+				if err := json.Unmarshal(fbody, &flist); err != nil {
+					return fmt.Errorf("GET logs with a storage error (%s #%d) under it: 200 with a body that does not decode: %q", pt, nth, fbody)
+				}
+				sort.Strings(flist)
+				if strings.Join(flist, ",") != strings.Join(want, ",") {
+					return fmt.Errorf("GET logs with a storage error (%s #%d) under it answers 200 with the list %v; the logs with an accepted update are %v (an error status would have been fine, a wrong list is not)", pt, nth, flist, want)
+				}
+			}
+		}
+		for _, id := range e.LogIDs {
+			wantCp, held := lastAccepted[id]
+			if !held {
+				continue
+			}
+			var cb []byte
+			var cerr error
+			if !armed(func() {
+				fcode, fbody, _ = serve("GET", fmt.Sprintf(api.HTTPGetCheckpoint, id))
+			}) {
+				continue
+			}
+			classes = append(classes, "faulty-read:checkpoint:"+pt)
+			if fcode == 404 || (fcode == 200 && !bytes.Equal(fbody, wantCp)) {
+				return fmt.Errorf("GET checkpoint of %s with a storage error (%s #%d) under it: status %d body %q; the witness holds %q (an error status would have been fine; 'not found' or other bytes are not)", id[:8], pt, nth, fcode, fbody, wantCp)
+			}
+			if armed(func() { cb, cerr = cl.GetLatestCheckpoint(ctx, id) }) {
+				if errors.Is(cerr, os.ErrNotExist) || (cerr == nil && !bytes.Equal(cb, wantCp)) {
+					return fmt.Errorf("client.GetLatestCheckpoint(%s) with a storage error (%s #%d) under the server = %q, %v; the witness holds %q", id[:8], pt, nth, cb, cerr, wantCp)
+				}
+			}
+			break // one log per step keeps the cost flat
 		}
 		return nil
 	}
